@@ -98,7 +98,7 @@ def realistic_workloads(rng, dtype=torch.float64, steps=8):
         X.Log().Exp()
 
 
-def run_repository_tests(ck, monitors, timeout=1500):
+def run_repository_tests(ck, monitors, timeout=1500, subset="tests"):
     """Realistic driver: the repository's own test-suite executed with monitors attached (pytest plugin
     vrf.pytest_plugin in a child interpreter); the plugin's partial result is absorbed into `ck`.
     Network-dependent tests fail as in the baseline; test outcomes are not judged here, only what the monitors saw."""
@@ -119,7 +119,7 @@ def run_repository_tests(ck, monitors, timeout=1500):
                    PYTHONPATH=ROOT + os.pathsep + REPO + os.pathsep + os.environ.get("PYTHONPATH", ""), VERIF_REPO=REPO)
         try:
             r = subprocess.run([sys.executable, "-m", "pytest", "-q", "-p", "no:cacheprovider", "-p", "vrf.pytest_plugin",
-                                "--timeout=900", "--continue-on-collection-errors", "--rootdir", tmp, "tests"],
+                                "--timeout=900", "--continue-on-collection-errors", "--rootdir", tmp, subset],
                                cwd=tmp, env=env, capture_output=True, text=True, timeout=timeout)
         except subprocess.TimeoutExpired:
             ck.inconclusive_because("repository test-suite under monitors exceeded its watchdog")
